@@ -1,6 +1,8 @@
 package pipeprops
 
 import (
+	"math"
+
 	"verif/sim/driver"
 )
 
@@ -22,7 +24,7 @@ func c05Gen(r *driver.Rand, thorough bool) *driver.Plan {
 	p.Fn = r.Intn(60)
 	p.FnArg = r.Intn(n + 2)
 	if stage == "Take" {
-		p.N = driver.Pick(r, 0, 1, n-1, n, n+1, r.Intn(n+3))
+		p.N = driver.Pick(r, 0, 1, n-1, n, n+1, r.Intn(n+3), math.MaxInt)
 		if p.N < 0 {
 			p.N = 0
 		}
